@@ -42,7 +42,7 @@ class Builder:
         self.ncmd += 1
         return "c%d" % self.ncmd
 
-    def deploy(self, name, host, scripts, dt, ptimeout, async_=True, rollout=False, drain=SEC, names=None):
+    def deploy(self, name, host, scripts, dt, ptimeout, async_=True, rollout=False, drain=SEC, names=None, health_path=None):
         names = names or self.names(len(scripts))
         st = {"op": "rollout_deploy" if rollout else "deploy", "id": self.cmd(), "async": async_, "name": H(name),
               "targets": [{"name": H(n), "probes": s} for n, s in zip(names, scripts)],
@@ -50,6 +50,8 @@ class Builder:
         if not rollout:
             st.update({"hosts": [H(host)], "prefixes": [], "tls": False, "tls_redirect": False, "strip": True, "cert": "none",
                        "pages": "none", "topts": {"interval": INTERVAL, "timeout": ptimeout}})
+            if health_path is not None:
+                st["topts"]["health_path"] = H(health_path)
         self.steps.append(st)
         self.meta["deploys"].append({"id": st["id"], "targets": [n.decode() for n in names], "scripts": scripts, "dt": dt,
                                      "ptimeout": ptimeout, "rollout": rollout, "name": name.decode()})
@@ -245,6 +247,33 @@ def gen_same_names(rnd):
     return b.finish()
 
 
+def gen_health_paths(k):
+    """Health-check paths that are not a plain absolute path: whatever the configured path looks like (a second host after
+    '//', a full URL, dot segments, a query), the probe that decides about a target must be sent to THAT target - two targets,
+    the first answers its probes and the second never does, the path names the first one: the deploy must fail and nothing
+    may be forwarded to the new targets; then the same with both answering."""
+    b = Builder(random.Random(9000 + k))
+    b.meta["shape"] = {"mix": "health_path", "k": k}
+    host, name = b"a.example.com", b"web"
+    names = b.names(2)
+    good = names[0]
+    path = [b"//" + good + b"/up", b"http://" + good + b"/up", b"/a/../up", b"/up?full=1", b"up", b"///" + good + b"/up"][k % 6]
+    b.deploy(name, host, [["ok"], ["ok"]], 5 * SEC, 500 * MS, async_=False)
+    b.request(host, "old")
+    b.sleep(0)
+    b.deploy(name, host, [["ok"], ["refused"]], 2 * SEC, 500 * MS, names=names, health_path=path)
+    for mk in [1, 1 * SEC, 900 * MS, 200 * MS]:
+        b.sleep(mk)
+        b.request(host, "during")
+        b.request(host, "during")
+    b.sleep(1 * SEC)
+    b.deploy(name, host, [["status:503", "ok"], ["ok"]], 3 * SEC, 500 * MS, health_path=path)
+    b.sleep(1500 * MS)
+    for _ in range(3):
+        b.request(host, "after")
+    return b.finish()
+
+
 def gen_rollout_redeploy(rnd):
     """A SECOND rollout deploy while a split is in force and rollout-group requests keep arriving: until all of its targets
     have answered a probe the rollout group must stay on the rollout targets it had (and for ever, if the command fails)."""
@@ -323,11 +352,19 @@ def probe_verdicts(o, ptimeouts):
     says: success only for a 2xx answer within the probe timeout.  Returns mismatches."""
     last = {}
     bad = []
+    sent, applied = {}, {}
     for e in o["events"]:
         if e["kind"] == "probe-sent":
             last[e["args"][0]] = (e["args"][1], e["t"])
+            sent[e["args"][0]] = sent.get(e["args"][0], 0) + 1
         elif e["kind"] == "probe-apply":
             host = e["args"][0].split(":", 1)[1]
+            # the result that decides about a target comes from a probe sent to THAT target's address: at every point
+            # a host has been sent at least as many probes as results were applied to targets at that host
+            applied[host] = applied.get(host, 0) + 1
+            if host in ptimeouts and applied[host] > sent.get(host, 0):
+                bad.append({"seq": e["seq"], "target": host, "outcome": "no probe was sent to this target's address for this result",
+                            "applied_ok": e["args"][1]})
             if host in last and host in ptimeouts:
                 want = outcome_ok(last[host][0], ptimeouts[host])
                 if want is not None and want != e["args"][1]:
@@ -426,6 +463,7 @@ def run(tier, seed):
         scen_meta = [gen_scenario(rnd, sh) for sh in shapes]
         scen_meta += [gen_same_names(random.Random(seed * 131 + k)) for k in range(6 if tier == "quick" else 60)]
         scen_meta += [gen_rollout_redeploy(random.Random(seed * 137 + k)) for k in range(6 if tier == "quick" else 60)]
+        scen_meta += [gen_health_paths(k) for k in range(6)]
         scenarios = [s for s, _ in scen_meta]
         metas = [m for _, m in scen_meta]
         rand = m5lb.random_scenarios(rnd, n_random, PROFILES, 8, 25)
